@@ -344,3 +344,59 @@ Definition padded_len (n : Z) : Z := n + (- n) mod 4.
 Definition tbl_fitsb {R} (wt : list (wrow R)) (r : R) : bool :=
   forallb (fun row => forallb (fun v : wr => padded_len (blen (v 0)) <=? 65535) (w_emit row r)) wt.
 Definition tbl_fits {R} (wt : list (wrow R)) (r : R) : Prop := tbl_fitsb wt r = true.
+
+(* ------------------------------------------------------------------ specification vocabulary
+   (used in the statements of the theorems; no proofs here) *)
+(* a value padded to a multiple of 4, and one parameter on the wire *)
+Definition padv (v : bytes) : bytes := v ++ zeros ((- blen v) mod 4).
+Definition param_bytes (pid : Z) (v : bytes) : bytes :=
+  le_bytes 2 (wrap_u16 pid) ++ le_bytes 2 (wrap_u16 (blen v)) ++ v.
+
+(* a pid that can be written: an i16 other than the sentinel *)
+Definition pid_ok (pid : Z) : Prop := -32768 <= pid <= 32767 /\ pid <> 1.
+
+(* a well-formed little-endian parameter: valid pid, 16-bit length *)
+Definition item_ok (it : Z * bytes) : Prop := pid_ok (fst it) /\ blen (snd it) <= 65535.
+Fixpoint params_bytes (items : list (Z * bytes)) : bytes :=
+  match items with [] => [] | it :: t => param_bytes (fst it) (snd it) ++ params_bytes t end.
+(* the values found under pid, in list order *)
+Fixpoint matches (pid : Z) (items : list (Z * bytes)) : list bytes :=
+  match items with
+  | [] => []
+  | it :: t => if fst it =? pid then snd it :: matches pid t else matches pid t
+  end.
+Fixpoint mapM {A B} (f : A -> res B) (l : list A) : res (list B) :=
+  match l with [] => Ok [] | a :: t => b <- f a ;; r <- mapM f t ;; Ok (b :: r) end.
+
+(* the writer of a value does not depend on the buffer position modulo 4 *)
+Definition periodic (w : wr) : Prop := forall pos, pos mod 4 = 0 -> w pos = w 0.
+Definition items_of {R} (wt : list (wrow R)) (r : R) : list (Z * bytes) :=
+  flat_map (fun row => map (fun v : wr => (w_pid row, padv (v 0))) (w_emit row r)) wt.
+
+(* what a write table emits under one pid (padded values, in order) *)
+Definition emitted {R} (wt : list (wrow R)) (r : R) (pid : Z) : list bytes :=
+  match find (fun row => w_pid row =? pid) wt with
+  | Some row => map (fun v : wr => padv (v 0)) (w_emit row r)
+  | None => []
+  end.
+
+Record table_ok {R} (wt : list (wrow R)) (r : R) : Prop := mk_table_ok {
+  tk_nodup : NoDup (map w_pid wt);                                   (* distinct pids *)
+  tk_pids : Forall (fun row => pid_ok (w_pid row)) wt;               (* i16, not the sentinel *)
+  tk_periodic : forall row v, In row wt -> In v (w_emit row r) -> periodic v;
+  tk_fits : tbl_fits wt r }.                                         (* every padded value <= 65535 bytes *)
+
+(* the reader of a row gives back `a` when the values found under its pid are `vals`
+   (in a little-endian list with representation identifier [0, 3]) *)
+Definition reader_ok {A} (vals : list bytes) (rd : reader A) (a : A) : Prop :=
+  match rd with
+  | RSeek k => k (0, 3) (Ok (hd_error vals)) = Ok a
+  | RList X dec k => exists l, mapM (fun v => run (dec false) v) vals = Ok l /\ k l = a
+  end.
+Fixpoint rows_read_back {R} (wt : list (wrow R)) (r : R) (rt : list rrow) : tuple_of rt -> Prop :=
+  match rt with
+  | [] => fun _ => True
+  | row :: t => fun x => r_pid row <> 768
+                         /\ reader_ok (emitted wt r (r_pid row)) (r_reader row) (fst x)
+                         /\ rows_read_back wt r t (snd x)
+  end.
